@@ -125,6 +125,7 @@ fn sample_of(case: &Case, out: &check::Outcome) -> serde_json::Value {
     let fault = match case {
         Case::Faulted { thread, idx, kind, path, .. } => json!({"thread": thread, "before_call": idx, "kind": format!("{kind:?}"), "path": path}),
         Case::HardIo { at, .. } => json!({"kind": "hard I/O error (observational)", "at_data_call": at}),
+        Case::HardIoSweep { .. } => json!({"kind": "hard I/O error at every data-path call (observational)"}),
         _ => json!(null),
     };
     json!({
@@ -150,7 +151,14 @@ fn run_worker(prop: &str, base_seed: u64, from: u64, to: u64, stride: u64, offse
         let cases = cases_for(prop, seed);
         rep.seeds += 1;
         for case in cases {
-            let out = check_case(prop, &case);
+            // one forked OS process per case: pristine process-wide state every time
+            let out = match check::check_case_isolated(prop, &case) {
+                Ok(o) => o,
+                Err(e) => {
+                    rep.harness_errors.push(format!("seed {seed}: {e}"));
+                    continue;
+                }
+            };
             rep.cases += 1;
             rep.execs += out.execs;
             rep.steps += out.steps;
@@ -163,7 +171,7 @@ fn run_worker(prop: &str, base_seed: u64, from: u64, to: u64, stride: u64, offse
             }
             *rep.profiles.entry(case.plan().profile.clone()).or_insert(0) += 1;
             let f = &case.plan().cfg.faults;
-            for (k, on) in [("short_write", f.short_write > 0), ("short_read", f.short_read > 0), ("eintr", f.eintr > 0), ("hard_io", matches!(case, Case::HardIo { .. }))] {
+            for (k, on) in [("short_write", f.short_write > 0), ("short_read", f.short_read > 0), ("eintr", f.eintr > 0), ("hard_io", matches!(case, Case::HardIo { .. } | Case::HardIoSweep { .. }))] {
                 if on {
                     *rep.enabled.entry(k.to_string()).or_insert(0) += 1;
                 }
@@ -203,11 +211,34 @@ fn run_worker(prop: &str, base_seed: u64, from: u64, to: u64, stride: u64, offse
                 if (must && rep.violations.len() < minimise_budget + max_unknown) || rep.violations.len() < minimise_budget {
                     let target = raw_unknown.cloned().unwrap_or_else(|| out.own[0].clone());
                     let original_ops = case.plan().n_ops();
-                    // confirm by re-execution, then minimise
-                    let again = check_case(prop, &case);
-                    let confirmed = again.own.iter().any(|v| v.oracle == target.oracle);
+                    // confirm in a fresh OS process, then minimise (every candidate is
+                    // evaluated in a fresh process too, so the replay file reproduces)
+                    let same = |vs: &[Violation]| vs.iter().any(|v| v.oracle == target.oracle);
+                    let mut start_case = case.clone();
+                    let mut traces = out.traces.clone();
+                    let mut confirmed = match minimise::fresh_eval(prop, &case) {
+                        Some((vs, _)) => same(&vs),
+                        None => false,
+                    };
+                    if !confirmed {
+                        // not reproducible in isolation: the code under test keeps state across
+                        // what the simulator treats as process boundaries. Executing the plan
+                        // twice in one process makes that state part of the replay.
+                        if let Case::Plain { plan } = &case {
+                            let mut twice = plan.clone();
+                            twice.double_exec = true;
+                            let c2 = Case::Plain { plan: twice };
+                            if let Some((vs, t)) = minimise::fresh_eval(prop, &c2) {
+                                if same(&vs) {
+                                    start_case = c2;
+                                    traces = t;
+                                    confirmed = true;
+                                }
+                            }
+                        }
+                    }
                     let (min_case, min_v) = if confirmed {
-                        minimise::minimise(prop, &case, &target, &out.traces)
+                        minimise::minimise(prop, &start_case, &target, &traces)
                     } else {
                         (case.clone(), target.clone())
                     };
@@ -564,6 +595,7 @@ fn cmd_replay(args: &[String]) -> i32 {
                 p.cfg.faults.hard_io_at = Some(*at);
                 p
             }
+            Case::HardIoSweep { base } => base.clone(),
         };
         let e = exec::execute(&plan, exec::ExecOpts::default());
         for c in &e.calls {
@@ -688,7 +720,7 @@ fn start_watchdog() {
 
 fn main() {
     let args: Vec<String> = std::env::args().skip(1).collect();
-    if matches!(args.first().map(String::as_str), Some("worker") | Some("replay")) {
+    if matches!(args.first().map(String::as_str), Some("worker") | Some("replay") | Some("eval")) {
         start_watchdog();
     }
     let code = match args.first().map(String::as_str) {
@@ -704,6 +736,26 @@ fn main() {
             0
         }
         Some("replay") => cmd_replay(&args[1..]),
+        Some("eval") => {
+            // internal: evaluate one case (JSON on stdin) in this fresh process
+            let prop = args.get(1).cloned().unwrap_or_default();
+            let mut text = String::new();
+            let _ = std::io::stdin().read_to_string(&mut text);
+            match serde_json::from_str::<Case>(&text) {
+                Ok(case) => {
+                    let out = check_case(&prop, &case);
+                    println!(
+                        "{}",
+                        json!({"own": out.own, "traces": out.traces, "capped": out.capped, "harness_error": out.harness_error})
+                    );
+                    0
+                }
+                Err(e) => {
+                    eprintln!("bad case: {e}");
+                    2
+                }
+            }
+        }
         Some("selftest") => cmd_selftest(&args[1..]),
         Some("dump") => cmd_dump(),
         _ => {
